@@ -1,0 +1,9 @@
+//go:build verif
+
+package css
+
+// VerifDepth returns the number of open blocks (state stack above the root state) and the bracket level
+// inside the current prelude or value (read-only, verif build tag only).
+func (p *Parser) VerifDepth() (blocks, level int) {
+	return len(p.state) - 1, p.level
+}
